@@ -140,7 +140,9 @@ def split(path, parts):
     return paths
 
 
-_RE_C = re.compile(r'^<<"COMPLAINT", (\d+), "([VD])", "(.*)">>$')
+# TLC wraps long tuples over several lines: match across white space
+_RE_C = re.compile(r'<<\s*"COMPLAINT",\s*(\d+),\s*"([VD])",\s*"([^"]*)"\s*>>')
+_RE_REJ = re.compile(r'<<\s*"TRACE REJECTED",\s*"consumed",\s*(\d+),\s*"of",\s*(\d+),\s*"violations",\s*(-?\d+)\s*>>')
 
 
 def judge_file(path, timeout=1800):
@@ -151,12 +153,13 @@ def judge_file(path, timeout=1800):
     e = {"TRACE": os.path.abspath(path)}
     res = core.run_tlc("SnapAlgTrace.tla", "SnapAlgTrace.cfg", cwd=SPEC, workers=1, timeout=timeout, env=e, heap="4g",
                        stack="1g", deque=True, metadir=_uniq("tlc-trace"))
-    comps = []
-    for ln in res.out.splitlines():
-        m = _RE_C.match(ln.strip())
-        if m:
-            comps.append((int(m.group(1)), m.group(2), m.group(3)))
+    comps = [(int(m.group(1)), m.group(2), m.group(3)) for m in _RE_C.finditer(res.out)]
     rejected = "TRACE REJECTED" in res.out
+    mr = _RE_REJ.search(res.out)
+    nv = sum(1 for _, l, _ in comps if l == "V")
+    if (mr and int(mr.group(3)) != nv) or (rejected and not mr) or (not rejected and nv):
+        raise core.ToolError("complaint lines of the trace validation could not be matched with its verdict on %s (%s parsed, verdict %s)"
+                             % (path, nv, mr.group(0) if mr else rejected))
     if res.error or (not res.ok and not rejected):
         raise core.ToolError("trace validation failed on %s: %s" % (path, (res.error or res.out[-800:])))
     if res.distinct != n + 1 and not rejected:
